@@ -1,8 +1,9 @@
 // Correspondence harness: runs the REAL file.d code (module replaced by /repo) on generated,
 // enumerated and corpus cases and writes, per case, the input and the canonicalised observable.
-//   harness <prop> -out cases.txt -stats stats.json [-seed N] [-tier quick|thorough] [-corpus dir]
-//   harness <prop> -replay "<stream>\t<which>\t<case-sx>"      re-executes one case, prints its line
-package main
+//
+//	harness-<ID> -out cases.txt -stats stats.json [-seed N] [-tier quick|thorough] [-corpus dir]
+//	harness-<ID> -replay "<stream>\t<which>\t<case-sx>"      re-executes one case, prints its line
+package hmain
 
 import (
 	"bufio"
@@ -19,24 +20,24 @@ import (
 
 type Ctx struct {
 	W     *hx.Writer
-	cur   *os.File // the case being executed (so a crash of the real code can be attributed)
+	Cur   *os.File // the case being executed (so a crash of the real code can be attributed)
 	R     *hx.Rng
 	Tier  string
 	Seed  uint64
 	Scale int // 1 quick, 20 thorough (generators multiply their counts)
-	prop  *Prop
+	Prop  *Prop
 }
 
 // Do executes the implementation on one case and records the line.
 func (c *Ctx) Do(stream string, which int, cs hx.Sx, nontrivial bool) hx.Sx {
-	if c.cur != nil {
+	if c.Cur != nil {
 		line := fmt.Sprintf("%s\t%d\t%s\n", stream, which, hx.String(cs))
 		if len(line) < 1<<16 {
-			c.cur.Truncate(0)
-			c.cur.WriteAt([]byte(line), 0)
+			c.Cur.Truncate(0)
+			c.Cur.WriteAt([]byte(line), 0)
 		}
 	}
-	obs := c.prop.Exec(which, cs)
+	obs := c.Prop.Exec(which, cs)
 	c.W.Case(stream, which, cs, obs, nontrivial)
 	return obs
 }
@@ -48,20 +49,8 @@ type Prop struct {
 	Exec func(which int, cs hx.Sx) hx.Sx
 }
 
-var props = map[string]*Prop{}
-
-func Register(p *Prop) { props[strings.ToLower(p.ID)] = p }
-
-func main() {
-	if len(os.Args) < 2 {
-		fmt.Fprintln(os.Stderr, "usage: harness <prop> ...")
-		os.Exit(2)
-	}
-	p, ok := props[strings.ToLower(os.Args[1])]
-	if !ok {
-		fmt.Fprintln(os.Stderr, "unknown property", os.Args[1])
-		os.Exit(2)
-	}
+// Run is the main() of one property's harness binary (harness/<id>/main.go calls it).
+func Run(p *Prop) {
 	fs := flag.NewFlagSet("harness", flag.ExitOnError)
 	out := fs.String("out", "cases.txt", "case file")
 	stats := fs.String("stats", "stats.json", "statistics file")
@@ -70,7 +59,7 @@ func main() {
 	corpus := fs.String("corpus", "", "directory of corpus case files that run first")
 	replay := fs.String("replay", "", "one case line to re-execute")
 	curPath := fs.String("cur", "", "file that always holds the case in progress")
-	_ = fs.Parse(os.Args[2:])
+	_ = fs.Parse(os.Args[1:])
 
 	if *replay != "" {
 		parts := strings.Split(*replay, "\t")
@@ -87,12 +76,12 @@ func main() {
 
 	w := hx.NewWriter(*out)
 	w.Rule = p.Rule
-	ctx := &Ctx{W: w, R: hx.NewRng(*seed), Tier: *tier, Seed: *seed, Scale: 1, prop: p}
+	ctx := &Ctx{W: w, R: hx.NewRng(*seed), Tier: *tier, Seed: *seed, Scale: 1, Prop: p}
 	if *tier == "thorough" {
 		ctx.Scale = 20
 	}
 	if *curPath != "" {
-		ctx.cur, _ = os.Create(*curPath)
+		ctx.Cur, _ = os.Create(*curPath)
 	}
 	if *corpus != "" {
 		files, _ := filepath.Glob(filepath.Join(*corpus, "*.case"))
@@ -121,8 +110,8 @@ func main() {
 	}
 	p.Gen(ctx)
 	w.Close(*stats)
-	if ctx.cur != nil {
-		ctx.cur.Truncate(0)
-		ctx.cur.Close()
+	if ctx.Cur != nil {
+		ctx.Cur.Truncate(0)
+		ctx.Cur.Close()
 	}
 }
